@@ -157,12 +157,33 @@ class BuildError(Exception):
     pass
 
 
+COQPROJECT_HEADER = """-Q . Elk
+-arg -w -arg -notation-overridden,-deprecated-hint-without-locality,-deprecated-instance-without-locality,-deprecated-syntactic-definition,-ambiguous-paths
+"""
+
+
+def regen_coqproject():
+    """_CoqProject lists every .v under Base/ Model/ Proofs/ Props/ Gen/ (sorted); it is
+    regenerated (and Makefile.coq with it) whenever the file list changes."""
+    files = []
+    for d in ("Base", "Model", "Proofs", "Props", "Gen"):
+        dd = os.path.join(COQ, d)
+        if os.path.isdir(dd):
+            for f in sorted(os.listdir(dd)):
+                if f.endswith(".v") and not f.startswith("."):
+                    files.append("%s/%s" % (d, f))
+    text = COQPROJECT_HEADER + "\n".join(files) + "\n"
+    changed = write_if_changed(os.path.join(COQ, "_CoqProject"), text)
+    if changed or not os.path.exists(os.path.join(COQ, "Makefile.coq")):
+        return sh("coq_makefile -f _CoqProject -o Makefile.coq", cwd=COQ, timeout=120)
+    return 0, ""
+
+
 def coq_make(targets, timeout=3000):
     with Lock("coq"):
-        if not os.path.exists(os.path.join(COQ, "Makefile.coq")):
-            rc, log = sh("coq_makefile -f _CoqProject -o Makefile.coq", cwd=COQ, timeout=120)
-            if rc != 0:
-                return rc, log
+        rc, log = regen_coqproject()
+        if rc != 0:
+            return rc, log
         rc, log = sh(["make", "-f", "Makefile.coq", "-j16"] + list(targets), cwd=COQ, timeout=timeout)
     return rc, log
 
@@ -388,6 +409,26 @@ def run_elk_program(elk, src, workdir, name, timeout=20, env=None, args=()):
     return rc, out
 
 
+def run_programs(elk, progs, workdir, workers=16, timeout=20, env=None, subcmd="run", args=()):
+    """progs: list of (id, source). Runs each with `elk <subcmd> file` in parallel.
+    Returns {id: (rc, output, outcome_class)}. Output is stdout+stderr merged."""
+    os.makedirs(workdir, exist_ok=True)
+
+    def one(p):
+        pid_, src = p
+        ext = ".elk.test" if subcmd == "test" else ".elk"
+        path = os.path.join(workdir, pid_ + ext)
+        with open(path, "w") as f:
+            f.write(src)
+        rc, out = sh([elk, subcmd, path] + list(args), cwd=workdir, env=elk_env(env), timeout=timeout)
+        try:
+            os.remove(path)
+        except OSError:
+            pass
+        return pid_, (rc, out, classify_elk(rc, out))
+    return dict(parallel_map(one, progs, workers))
+
+
 def parallel_map(fn, items, workers=16):
     from concurrent.futures import ThreadPoolExecutor
     with ThreadPoolExecutor(max_workers=workers) as ex:
@@ -541,9 +582,17 @@ class Ctx:
 
 def load_known():
     p = os.path.join(ROOT, "known_findings.json")
+    kf = {"findings": [], "fixed": []}
     if os.path.exists(p):
-        return json.load(open(p))
-    return {"findings": [], "fixed": []}
+        kf = json.load(open(p))
+    d = os.path.join(ROOT, "known_findings.d")   # per-property staging files, merged by the integrator
+    if os.path.isdir(d):
+        for f in sorted(os.listdir(d)):
+            if f.endswith(".json"):
+                x = json.load(open(os.path.join(d, f)))
+                kf["findings"] += x.get("findings", [])
+                kf["fixed"] += x.get("fixed", [])
+    return kf
 
 
 def compare_lines(ctx, stream, impl_lines, model_lines, keyfn, whatfn=None, limit=200):
